@@ -2,7 +2,7 @@
 
 The real ``HTTPFactory``/``HTTPChannel`` (with a recording ``http.Request``
 subclass as the application) receives a generated request stream in one
-piece.  What it hands to the resource and whether it answers 400 + close is
+piece and again under generated segmentations.  What it hands to the resource and whether it answers 400 + close is
 compared with
 
 * a reference parser written for this check from RFC 9112 §§2-7 (+ RFC 9110
@@ -27,11 +27,11 @@ from lib.core import hyp_run, enumerate_run
 META = dict(
     property="C19",
     level="exploration",
-    technique="grammar-based generation of framing-biased request streams + complete byte sweeps (every byte value in method/target/version/header name/header value/chunk-size/chunk-ext) against a reference parser written from RFC 9112 and, on strictly well-formed streams, h11",
-    level_text="One-piece delivery of generated streams (1-3 pipelined requests; CL/TE combinations, duplicate and list-valued CL, signs/whitespace/non-ASCII digits/huge digit strings, TE token lists and case, obs-fold, bare CR/LF/NUL/CTL in values, invalid names, request-line separators and versions, chunk-size forms, extensions incl. quoted strings and BWS, LF-only terminators, missing chunk CRLF, trailers, smuggled requests inside bodies, truncation) to the real HTTPFactory/HTTPChannel with a recording http.Request subclass as the application. Delivered requests (method, target, version, header multimap, body), 400 + close, and 'nothing processed after the error' must conform to the reference parser; every recipient choice RFC 9112/9110 allows is accepted. Streams that are strictly well-formed are also parsed by h11 and must give equal requests. Byte sweeps are complete over the 256 byte values at 13 syntactic positions; the rest is sampled.",
-    level_note="Reference parser (ref_parse) is the trusted base; h11 0.16 second opinion. 'Unsupported transfer coding' is everything except a single 'chunked' (what twisted implements). Repeated Content-Length is required to be rejected even when the values agree, as the statement says (RFC 9110 §8.6 would also allow accepting them). Missing/duplicate Host, limits (header count/size, line length) and Connection semantics are outside this check; segmentation is C18.",
+    technique="grammar-based generation of framing-biased request streams + complete byte sweeps (every byte value in method/target/version/header name/header value/chunk-size/chunk-ext) against a reference parser written from RFC 9112 and, on strictly well-formed streams, h11; every stream is delivered in one piece and again under generated segmentations (same reference verdict required)",
+    level_text="One-piece delivery of generated streams (1-3 pipelined requests; CL/TE combinations, duplicate and list-valued CL, signs/whitespace/non-ASCII digits/huge digit strings, TE token lists and case, obs-fold, bare CR/LF/NUL/CTL in values, invalid names, request-line separators and versions, chunk-size forms, extensions incl. quoted strings and BWS, LF-only terminators, missing chunk CRLF, trailers, smuggled requests inside bodies, truncation) to the real HTTPFactory/HTTPChannel with a recording http.Request subclass as the application. Delivered requests (method, target, version, header multimap, body), 400 + close, and 'nothing processed after the error' must conform to the reference parser; every recipient choice RFC 9112/9110 allows is accepted. Streams that are strictly well-formed are also parsed by h11 and must give equal requests. Each stream is then re-delivered under 2-3 generated segmentations (cuts inside chunk-size lines, between CR and LF, at piece boundaries, random; byte-wise when <= 250 bytes; every single cut for four canonical well-formed chunked streams) and must conform to the same reference steps, since the body RFC 9112 assigns does not depend on how the bytes arrive; delivery stops once the server asked to close. Byte sweeps are complete over the 256 byte values at 13 syntactic positions; the rest is sampled.",
+    level_note="Reference parser (ref_parse) is the trusted base; h11 0.16 second opinion. 'Unsupported transfer coding' is everything except a single 'chunked' (what twisted implements). Repeated Content-Length is required to be rejected even when the values agree, as the statement says (RFC 9110 §8.6 would also allow accepting them). Missing/duplicate Host, limits (header count/size, line length) and Connection semantics are outside this check; equality of written bytes across segmentations is C18 (here only conformance to the reference is required of segmented runs).",
     design_ref="§5 C19",
-    rule="case = list of labelled byte pieces (labels are for readability only; the oracle works on the concatenated bytes). non-trivial = the stream contains a framing conflict/invalid framing element (reference step 'error' or a may-reject reason about CL/TE/chunks) or >= 2 requests of which the first has a body; distinct by stream bytes.",
+    rule="case = list of labelled byte pieces (labels are for readability only; the oracle works on the concatenated bytes). non-trivial = the stream contains a framing conflict/invalid framing element (reference step 'error' or a may-reject reason about CL/TE/chunks) or >= 2 requests of which the first has a body; distinct by stream bytes; plus (stream, cuts) for segmented deliveries of such streams or of chunked streams whose cuts fall inside a chunk-size line, a CRLF or a CRLFCRLF.",
 )
 
 FIXED_DATE = b"Thu, 01 Jan 1970 00:00:00 GMT"
@@ -410,7 +410,11 @@ class HarnessBug(Exception):
     pass
 
 
-def serve(data):
+def serve(segments):
+    """Feed the segments to a fresh connection (a bytes argument is one segment);
+    delivery stops once the server has asked the transport to close."""
+    if isinstance(segments, bytes):
+        segments = [segments] if segments else []
     from twisted.internet.task import Clock
     from twisted.web import http
     from twisted.python.failure import Failure
@@ -446,8 +450,10 @@ def serve(data):
     tr = _make_transport()
     proto.makeConnection(tr)
     try:
-        if data:
-            proto.dataReceived(data)
+        for seg in segments:
+            if tr.disconnecting:
+                break
+            proto.dataReceived(seg)
     finally:
         if errors:
             raise HarnessBug(repr(errors[0]))
@@ -698,6 +704,68 @@ def run_case(ctx, case):
         ctx.nontrivial(data)
         if len(ctx.samples) < 5 and len(data) < 300 and (len(data) % 7 == 0):
             ctx.sample(dict(stream=data))
+    # the same verdict must hold however the bytes arrive
+    specs = case.get("cuts")
+    if specs is None:
+        specs = ["bytewise"] if 1 < len(data) <= 400 else []
+    for spec in specs:
+        cuts = list(range(1, len(data))) if spec == "bytewise" else sorted(set(c for c in spec if 0 < c < len(data)))
+        if not cuts:
+            continue
+        segs = split_at(data, cuts)
+        sobs = serve(segs)
+        sres = [conforms(a, sobs) for a in alts]
+        classes = _cut_classes(case, data, cuts) if spec != "bytewise" else ["bytewise"]
+        ctx.count("seg deliveries")
+        for c in classes:
+            ctx.count("seg: " + c)
+        if not any(r[0] is None for r in sres):
+            (sig, detail), _ = sres[0]
+            where = classes[0] if classes else "other-cut"
+            ctx.violation("segmented:%s:%s" % (sig, where), dict(pieces=case["pieces"], cuts=[spec]),
+                          "stream=%r cuts=%r\n one piece conforms; segmented delivery does not: %s\n observed: %d requests, got400=%r closed=%r"
+                          % (data[:500], cuts[:12], detail, len(sobs["requests"]), sobs["got400"], sobs["closed"]))
+        if sobs["n200"] != len(sobs["requests"]):
+            ctx.violation("segmented:responses-vs-requests", dict(pieces=case["pieces"], cuts=[spec]),
+                          "delivered %d requests, wrote %d 200 responses" % (len(sobs["requests"]), sobs["n200"]))
+        if classes and classes[0] != "other-cut" and (framing_issue or piped or any(k in ("chunksize", "lastchunk") for k, _ in case["pieces"])):
+            ctx.nontrivial((data, tuple(cuts)))
+
+
+def split_at(data, cuts):
+    out, prev = [], 0
+    for c in cuts:
+        out.append(data[prev:c])
+        prev = c
+    out.append(data[prev:])
+    return out
+
+
+def _cut_classes(case, data, cuts):
+    """Labels for a cut list, most specific first (the first one goes into a signature)."""
+    lines = []          # (start, end) of chunk-size lines, from the piece labels
+    pos = 0
+    for kind, b in case["pieces"]:
+        if kind in ("chunksize", "lastchunk"):
+            lines.append((pos, pos + len(b)))
+        pos += len(b)
+    cs = set(cuts)
+    out = []
+    deep = [(c - a, a, e) for a, e in lines for c in cuts if a < c < e and c - a >= 3]
+    if any(a2 > a and (e2 - a2) < depth + 2 and not any(a2 < c <= e2 for c in cuts)
+           for depth, a, e in deep for a2, e2 in lines):
+        out.append("deep cut in a chunk-size line, later shorter size line unsplit")
+    if any(a < c < e for a, e in lines for c in cuts):
+        out.append("cut inside a chunk-size line")
+    if any(data[c - 1:c + 1] == b"\r\n" for c in cuts):
+        out.append("cut between CR and LF")
+    if any(data[max(0, c - 3):c + 3].find(b"\r\n\r\n") >= 0 and data[c - 1:c + 1] != b"\r\n" or data[c - 2:c + 2] == b"\r\n\r\n" for c in cuts):
+        out.append("cut inside CRLFCRLF")
+    if not out:
+        out.append("other-cut")
+    if len(cuts) > 1:
+        out.append("several cuts")
+    return out
 
 
 def _brief_step(s):
@@ -930,18 +998,84 @@ def stream_case(draw):
             pieces[-1] = [kind, b[:draw(_int(0, max(0, len(b) - 1)))]]
         elif k == 2 and len(pieces) > 2:
             del pieces[draw(_int(1, len(pieces) - 1))]
-    return dict(pieces=[[k, b] for k, b in pieces if b])
+    pieces = [[k, b] for k, b in pieces if b]
+    return dict(pieces=pieces, cuts=draw(cut_specs(pieces)))
+
+
+@st.composite
+def cut_specs(draw, pieces):
+    """2-3 segmentations of the stream: cuts inside chunk-size lines, between CR
+    and LF, at piece boundaries, random; byte-wise for short streams."""
+    data = b"".join(b for _, b in pieces)
+    n = len(data)
+    if n < 2:
+        return []
+    lines, bounds, pos = [], [], 0
+    for kind, b in pieces:
+        if kind in ("chunksize", "lastchunk") and len(b) > 1:
+            lines.append((pos, pos + len(b)))
+        if pos:
+            bounds.append(pos)
+        pos += len(b)
+    crlf = [i + 1 for i in range(n - 1) if data[i:i + 2] == b"\r\n"]
+    specs = []
+    for _ in range(draw(_int(2, 3))):
+        mode = draw(_int(0, 5))
+        if mode <= 1 and lines:
+            a, e = _pick(draw, lines)
+            cuts = [draw(_int(a + 1, e - 1))]
+            if mode == 1 and e - a > 2:
+                cuts.append(draw(_int(a + 1, e - 1)))
+        elif mode == 2 and crlf:
+            cuts = [_pick(draw, crlf) for _ in range(draw(_int(1, 2)))]
+        elif mode == 3 and bounds:
+            cuts = [min(n - 1, max(1, _pick(draw, bounds) + draw(_int(-1, 1))))]
+        else:
+            cuts = [draw(_int(1, n - 1)) for _ in range(draw(_int(1, 4)))]
+        specs.append(sorted(set(cuts)))
+    if n <= 250:
+        specs.append("bytewise")
+    return specs
+
+
+def segmentation_cases():
+    """Small complete scope: well-formed chunked requests (multi-digit sizes,
+    leading zeros, extensions, trailers) followed by a pipelined request, under
+    EVERY single cut."""
+    head = [["reqline", b"POST /seg HTTP/1.1\r\n"], HOST, ["header", b"Transfer-Encoding: chunked\r\n"], ["eoh", b"\r\n"]]
+    a, b, c = b"abcdefghijklmnopqrstuvwxyz", b"0123456789ABCDEF" * 2, b"xyz"
+    bodies = [
+        [(b"1a", a), (b"20", b), (b"3", c)],
+        [(b"01A;note=first", a), (b"3", c)],
+        [(b"0000003", c), (b"1a", a), (b"3;x", c)],
+        [(b"3", c), (b'20;q="a b"', b), (b"1A", a)],
+    ]
+    lasts = [[["lastchunk", b"0\r\n"], ["endtrailers", b"\r\n"]],
+             [["lastchunk", b"000;fin\r\n"], ["trailer", b"X-Trailer: t\r\n"], ["endtrailers", b"\r\n"]]]
+    out = []
+    for i, chunks in enumerate(bodies):
+        pieces = list(head)
+        for size, data in chunks:
+            pieces.append(["chunksize", size + b"\r\n"])
+            pieces.append(["chunkdata", data + b"\r\n"])
+        pieces += lasts[i % 2] + LAST
+        n = sum(len(x) for _, x in pieces)
+        out.append(dict(pieces=pieces, cuts=[[k] for k in range(1, n)]))
+    return out
 
 
 def run(ctx):
     enumerate_run(ctx, sweep_cases(), run_case)
     if ctx.has_violation():
         return
+    enumerate_run(ctx, segmentation_cases(), run_case)
+    if ctx.has_violation():
+        return
     if ctx.thorough:
         ctx.shards(_shard, list(range(16)))
         return
-    hyp_run(ctx, stream_case(), run_case, 3200, label="streams")
+    hyp_run(ctx, stream_case(), run_case, 4500, label="streams")
 
 
 def _shard(sub, i):
-    hyp_run(sub, stream_case(), run_case, 30000, label=f"streams-shard{i}")
+    hyp_run(sub, stream_case(), run_case, 20000, label=f"streams-shard{i}")
